@@ -135,7 +135,7 @@ def lostNotifyNet : Net :=
   stabilizeNoNotify (checkPredecessor n0 400) 200
 
 example : (lostNotifyNet.get 400).map (·.pred) = some none := by decide
-example : (lostNotifyNet.get 200).map (·.succs) = some [400, 100, 200, 300] := by decide
+example : (lostNotifyNet.get 200).map (·.succs) = some [400, 100, 200] := by decide
 /-- the join request for id 350 issued at node 100 is routed to node 400 … -/
 example : findSucc lostNotifyNet FUEL 100 350 = .found 400 := by decide
 /-- … where the old code panicked … -/
